@@ -52,10 +52,15 @@ def maskBits (s : St) (m : Win) : Res (List Bool) := (rangeI m.len).mapM (fun i 
 def memsetMask (s : St) (m : Win) (v : Bool) : Res St :=
   (rangeI m.len).foldlM (fun s i => s.mset m i v) s
 
-/-- `makeMask()`: size is the *logical* size; an existing slice is re-sliced when its capacity
+/-- the size `makeMask()` gives the mask: one entry per cell of the data window once the data exists
+    (`t.array.Header.Raw != nil`: `size = t.len()`, what `IsMasked` compares with), the size of the shape before
+    (the half-built tensor of `New(…)`; a data window of length 0 stands for "no data yet"). -/
+def maskSize (t : Dense) : Nat := if t.win.len == 0 then (totalSize t.shape).toNat else t.win.len
+
+/-- `makeMask()`: size is `maskSize`; an existing slice is re-sliced when its capacity
     suffices, otherwise a new one is made; then cleared. -/
 def makeMask (s : St) (t : Dense) : Res (St × Dense) := do
-  let size := (totalSize t.shape).toNat
+  let size := maskSize t
   match t.mask with
   | none =>
     if size == 0 then pure (s, t) else
@@ -987,11 +992,11 @@ def stepS (psBefore psAfter : PState) (ss : SState) (_stepIdx : Nat) (toks : Lis
 
 /-! ## known-defect regions (see findings.d/mask.json) -/
 
-/-- F80: the generated predicates loop over the *raw storage window*: on a tensor whose window is
-    longer than its size (a view with gaps, or a clone of one) an unmasked tensor panics
-    (`makeMask` sizes the mask by the shape, the loop indexes it by the window) and a masked one
-    marks — and, when soft, clears — window cells that are not elements of the tensor. -/
-def Excl_predRawWindow (t : Dense) : Bool := (t.win.len : Int) != totalSize t.shape
+/-- F80: the generated predicates loop over the *raw storage window*: a masked tensor whose window is
+    longer than its size (a view with gaps, or a clone of one) marks — and, when soft, clears — window
+    cells that are not elements of the tensor. (A tensor without mask gets a mask of its own, sized by the
+    window since `makeMask` looks at the data: the bits of the gaps are not bits of any element.) -/
+def Excl_predRawWindow (t : Dense) : Bool := t.isMasked && (t.win.len : Int) != totalSize t.shape
 
 /-- F86: (in)equality predicates have no arm for bool and complex tensors: `nil` is returned and
     nothing is marked. -/
